@@ -29,6 +29,15 @@ error.  A malformed key is refused with the same error as ever.  In particular a
 stays absent (`C03_removed_flushed_stays_absent`), and a flushed value is never lost
 (`C03_flushed_unchanged_survives`).
 
+`C03_recovered_store_keeps_working_partial`: the store recovered from ANY image keeps working — every
+continuation of Put / Get / Has / GetSize / Remove / Flush / iteration / Close+reopen calls on it answers
+exactly like a map that has, for every digest, the entry of the last durable point or the entry now
+(the recovered state satisfies the full invariants of C01 and C02 for that map, and its disk is again
+well-formed, so the crash analysis applies to it again).  "Partial" only in a factor 2 in the premise on
+the total number of bytes (an artefact of re-basing the byte accounting on the mixed map).  Junk left in
+the primary tail by a cut append breaks no clause of those invariants; it is the primary GC, not among
+these calls, that would later parse it (known finding D12).
+
 `C03_image_zero` / `C03_image_full`: `k = 0` (no early creation) gives the old disk, `k ≥ streamLength`
 gives an image with the files of `d'`.
 
@@ -37,7 +46,7 @@ property's premises.  Nothing was found false in the model: the scan truncates a
 non-last index file exactly as in the last one, and an early-created empty next file is picked as current
 by `findLast`/`scanIndex` with the table of the whole records before it.
 -/
-import Sth.Lemmas.C03
+import Sth.Lemmas.C03Keep
 
 namespace Sth
 
@@ -54,7 +63,7 @@ theorem C03_flush_crash_recovers (c : Cfg) (hc : c.Legal) (ops : List SOp)
           (storeGet mr dr key).2 = (storeGet m' d' key).2 := by
   intro s
   have hU := univ_of_keysOK hk (keysExact_all c.kind ops)
-  obtain ⟨hI, hX, hD, hDur⟩ := reachable_c03 c hc _ hU ops ha
+  obtain ⟨hI, hX, hD, hDur, _⟩ := reachable_c03 c hc _ hU ops ha
     (fun op ho k hkey dig hcls => mem_digestsOf ho hkey hcls) hs s0 hi
   obtain ⟨m', d', f1, dOld, mOld, o1, dr, mr, r1, hb, _, _⟩ :=
     crash_recovers hc hU hI hX hD hDur (by have := hs.1; omega) (by have := hs.2.1; omega) ord k early
@@ -77,7 +86,7 @@ theorem C03_flush_crash_against_map (c : Cfg) (hc : c.Legal) (ops : List SOp)
         (storeGet mr dr key).2 = getResOf (Spec.get (specRun c.kind c.imm [] ops).1 dig) := by
   intro s m' d' hf dr mr hr key hk
   have hU := univ_of_keysOK hk (keysExact_all c.kind _)
-  obtain ⟨hI, hX, hD, hDur⟩ := reachable_c03 c hc _ hU ops ha
+  obtain ⟨hI, hX, hD, hDur, _⟩ := reachable_c03 c hc _ hU ops ha
     (fun op ho k hkey dig hcls => mem_digestsOf (List.mem_append_left _ ho) hkey hcls) hs s0 hi
   obtain ⟨m'', d'', f1, dOld, mOld, _, dr', mr', r1, hb, hmap, herr⟩ :=
     crash_recovers hc hU hI hX hD hDur (by have := hs.1; omega) (by have := hs.2.1; omega) ord k early
@@ -174,6 +183,49 @@ theorem C03_image_full (c : Cfg) (hc : c.Legal) (ops : List SOp)
   exact crash_image_full hU hI hX hD (by have := hs.1; omega) (by have := hs.2.1; omega) ord hf k early
     hlen
 
+/-- C03, the recovered store keeps working: the state recovered from ANY crash image (torn index tail,
+    torn primary tail, early-created empty files — all of them) behaves, for every continuation `ops'`
+    of Put / Get / Has / GetSize / Remove / Flush / iteration / Close+reopen calls, exactly like the map
+    `specR` that holds for every digest its entry at the last durable point or its entry now.
+    "Partial" only in the size premise: the byte accounting of the invariant is re-based on the recovered
+    map, whose weight is bounded by the old map's plus the new map's, hence the factor 2 on the bytes put
+    before the crash.  (Junk left in the primary tail by a cut append breaks NO clause of the invariants
+    of C01/C02: it lies below the recovered allocation point and no index entry names it; it is the
+    primary GC — not among the calls of this theorem — that would later parse it, known finding D12.) -/
+theorem C03_recovered_store_keeps_working_partial (c : Cfg) (hc : c.Legal) (ops ops' : List SOp)
+    (ha : ∀ op ∈ ops ++ ops', op.isC02 = true) (hk : KeysOK c.kind (ops ++ ops')) (hs : SizesOK ops)
+    (hs' : ops.length + ops'.length < 1073741824 ∧
+      2 * (ops.map SOp.bytes).sum + (ops'.map SOp.bytes).sum < two31)
+    (s0 : SState) (hi : initS c = some s0) (ord : List Nat) (k : Nat) (early : Bool) :
+    let s := (runS s0 ops).1
+    ∀ m' d', storeFlush s.m s.d (fixOrder ord s.m.inext.keys) = some (m', d') →
+    ∀ dr mr, openStoreR c (crashImage s.d (appendStream s.d d') k early) = (dr, .ok mr) →
+    ∃ specR : Spec,
+      (∀ dig, Spec.get specR dig = Spec.get (lastDurable c.kind c.imm [] [] ops) dig ∨
+        Spec.get specR dig = Spec.get (specRun c.kind c.imm [] ops).1 dig) ∧
+      (runS ⟨c, mr, dr⟩ ops').2 = (specRun c.kind c.imm specR ops').2 := by
+  intro s m' d' hf dr mr hr
+  have hU := univ_of_keysOK hk (keysExact_all c.kind _)
+  obtain ⟨hI, hX, hD, hDur, hW⟩ := reachable_c03 c hc _ hU ops
+    (fun op ho => ha op (List.mem_append_left _ ho))
+    (fun op ho k hkey dig hcls => mem_digestsOf (List.mem_append_left _ ho) hkey hcls) hs s0 hi
+  obtain ⟨m'', d'', f1, dr', mr', specR, r1, hmix, hI', hX', _⟩ :=
+    crash_keeps_working hc hU hI hX hD hDur hW (by have := hs.1; omega) (by have := hs.2.1; omega)
+      ord k early
+  have e1 : storeFlush s.m s.d (fixOrder ord s.m.inext.keys) = some (m'', d'') := f1
+  rw [hf] at e1
+  simp only [Option.some.injEq, Prod.mk.injEq] at e1
+  obtain ⟨rfl, rfl⟩ := e1
+  have e2 : openStoreR c (crashImage s.d (appendStream s.d d') k early) = (dr', .ok mr') := r1
+  rw [hr] at e2
+  simp only [Prod.mk.injEq, Except.ok.injEq] at e2
+  obtain ⟨rfl, rfl⟩ := e2
+  refine ⟨specR, hmix, ?_⟩
+  exact (run_ok2 hc hU ops' ⟨c, mr, dr⟩ specR _ _ hI' hX'
+    (fun op ho => ha op (List.mem_append_right _ ho))
+    (fun op ho k hkey dig hcls => mem_digestsOf (List.mem_append_right _ ho) hkey hcls)
+    (by have := hs'.1; omega) (by have := hs'.2; omega)).1
+
 /-! Non-vacuity.  A concrete flush with two buckets (keys 1 and 3 share bucket 170, key 2 is in bucket
     187), an overwrite (key 1), a new key (key 3) and a removal (key 2) after a first flush, with
     33-byte file limits (both the primary and the index roll over during the flush; with 1-byte limits
@@ -261,5 +313,51 @@ example : crashOutcomes exCfg03c exOps03c [] [ex03C1, ex03C2, ex03C3] =
     some (110, [[some (some [1, 1]), some (some [2]), some none],
       [some (some [3]), some (some [2]), some (some [4, 4, 4])],
       [some (some [3]), some none, some (some [4, 4, 4])]]) := by decide +kernel
+
+/-! The recovered store keeps working, concretely: after recovery from image 20 of the first flush
+    above (the cut is inside a primary record; with the early-created next primary file) and from image
+    78 (the cut is inside the second index record: bucket 170 is new, bucket 187 still old), a
+    continuation with reads, a put, a removal, a flush, a reopen by rescan and an iteration answers
+    exactly like the old map resp. the mixed map. -/
+
+def exCont03 : List SOp :=
+  [.get ex03K1, .put ex03K3 [7], .rm ex03K1, .flush [], .get ex03K3, .get ex03K2, .put ex03K2 [5, 5],
+   .reopen [] false, .iter []]
+
+def exOldMap03 : Spec :=
+  [([0xbb, 1, 0, 0, 0, 1], ex03K2, [2]), ([0xaa, 1, 0, 0, 0, 1], ex03K1, [1, 1])]
+def exMixMap03 : Spec :=
+  [([0xaa, 1, 0, 0, 0, 1], ex03K1, [3]), ([0xaa, 1, 0, 0, 0, 2], ex03K3, [4, 4, 4]),
+   ([0xbb, 1, 0, 0, 0, 1], ex03K2, [2])]
+
+example : (∀ op ∈ exOps03 ++ exCont03, op.isC02 = true) ∧ KeysOK exCfg03.kind (exOps03 ++ exCont03) ∧
+    SizesOK exOps03 ∧ (exOps03.length + exCont03.length < 1073741824 ∧
+      2 * (exOps03.map SOp.bytes).sum + (exCont03.map SOp.bytes).sum < two31) := by
+  refine ⟨by decide, ?_, ?_, by decide⟩
+  · unfold KeysOK; decide
+  · unfold SizesOK; decide
+
+/-- the outputs of `ops'` on the store recovered from image `k` (variant `early`) of the flush after
+    `ops` -/
+def exAfter (c : Cfg) (ops : List SOp) (ord : List Nat) (k : Nat) (early : Bool) (ops' : List SOp) :
+    Option (List SOut) :=
+  match initS c with
+  | none => none
+  | some s0 =>
+    let s := (runS s0 ops).1
+    match storeFlush s.m s.d (fixOrder ord s.m.inext.keys) with
+    | none => none
+    | some (_, d') =>
+      match openStoreR c (crashImage s.d (appendStream s.d d') k early) with
+      | (dr, .ok mr) => some (runS ⟨c, mr, dr⟩ ops').2
+      | (_, .error _) => none
+
+set_option maxRecDepth 100000 in
+example : exAfter exCfg03 exOps03 [] 20 true exCont03 =
+    some (specRun exCfg03.kind exCfg03.imm exOldMap03 exCont03).2 := by decide +kernel
+
+set_option maxRecDepth 100000 in
+example : exAfter exCfg03 exOps03 [] 78 false exCont03 =
+    some (specRun exCfg03.kind exCfg03.imm exMixMap03 exCont03).2 := by decide +kernel
 
 end Sth
